@@ -126,8 +126,16 @@ impl<T: ToVal> ToVal for darling::ast::GenericParam<T> {
         }
     }
 }
-impl<P: ToVal> ToVal for darling::ast::Generics<P> {
+impl<P: ToVal + darling::ast::GenericParamExt> ToVal for darling::ast::Generics<P>
+where
+    P::TypeParam: ToVal,
+{
     fn to_val(&self) -> Val {
-        Val::Rec(vec![("params".into(), Val::List(self.params.iter().map(|p| p.to_val()).collect())), ("where".into(), self.where_clause.to_val())])
+        Val::Rec(vec![
+            ("params".into(), Val::List(self.params.iter().map(|p| p.to_val()).collect())),
+            ("where".into(), self.where_clause.to_val()),
+            // the `type_params()` view must show every type parameter, in order
+            ("type_params".into(), Val::List(self.type_params().map(|t| t.to_val()).collect())),
+        ])
     }
 }
